@@ -90,7 +90,28 @@ def main(pid):
     hs_dir.mkdir(parents=True)
     env = {"VERIF_HS_CACHE": str(hs_dir)}
     vlib.impl_run("drv_hs", "run_cands", {"items": [{"text": "1 U.S. 1"}]}, env=env)
-    obs = vlib.impl_map("drv_hs", "run_cands", [{"text": t} for t in tx], env=env)
+    # the documented `extractors=` configuration: custom extractor lists (a reversed sample of the default list;
+    # synthetic patterns with multi-byte characters the default list does not use) x their own texts and the
+    # multi-byte texts.  Every driver process gets its share of them FIRST, so a tokenizer over another list has been
+    # built and used before the default Hyperscan tokenizer is (history).
+    import drv_hs_texts
+    citems = [{"text": t, "custom": w} for w in (0, 1) for t in drv_hs_texts.CUSTOM_TEXTS + tx[:: (40 if thorough else 120)]]
+    ditems = [{"text": t} for t in tx]
+    nchunk = vlib.NCPU
+    chunks = [[] for _ in range(nchunk)]
+    for i, it in enumerate(citems):
+        chunks[i % nchunk].append(it)
+    for i, it in enumerate(ditems):
+        chunks[i % nchunk].append(it)
+    flat = [it for ch in chunks for it in ch]
+    sizes = [len(ch) for ch in chunks]
+    from concurrent.futures import ThreadPoolExecutor
+    with ThreadPoolExecutor(nchunk) as ex:
+        futs = [ex.submit(vlib.impl_run, "drv_hs", "run_cands", {"items": ch}, env=env) for ch in chunks if ch]
+        obs = [o for f in futs for o in f.result()]
+    tx = [it["text"] for it in flat]
+    ev.cov["custom_extractor_list_items"] = len(citems)
+    ev.cov["second_call_differs"] = sum(1 for o in obs if o.get("second_call"))
     shutil.rmtree(hs_dir, ignore_errors=True)
     for o in obs:
         o["kind"] = "cands"
